@@ -1026,3 +1026,46 @@ func famHostileStore(g *sgen, i int) J {
 }
 
 func init() { families["hostilestore"] = famHostileStore }
+
+// C03: documents written with an aliased @context ({"<vocabulary IRI>": "as"}: every name of that vocabulary carries the
+// prefix "as:"), with hidden recipients — posted to the outbox, or stored and served by the GET handler
+func famAliased(g *sgen, i int) J {
+	w := g.baseWorld()
+	w["socialCallbacks"] = J{"wrapped": []interface{}{}, "other": []interface{}{}, "onFollow": 0.0}
+	ctx := J{"https://www.w3.org/ns/activitystreams": "as"}
+	hidden := func(v J) {
+		if g.r.chance(70) {
+			v["as:bto"] = g.r.pick([]string{bob, carol})
+		}
+		if g.r.chance(70) || v["as:bto"] == nil {
+			v["as:bcc"] = []interface{}{carol}
+		}
+	}
+	note := J{"type": "as:Note", "as:content": "aliased", "as:to": bob}
+	hidden(note)
+	if i%2 == 1 {
+		note["@context"] = ctx
+		note["id"] = local("/notes/2")
+		jmap(w["store"])[local("/notes/2")] = note
+		return J{"label": "aliased", "cfg": J{"kind": "both"}, "world": w,
+			"steps": []interface{}{step("handler", "GET", g.header(true), "/notes/2", nil)}}
+	}
+	var body J
+	switch (i / 2) % 3 {
+	case 0:
+		body = note
+	case 1:
+		body = J{"type": "as:Announce", "as:actor": alice, "as:object": remote("/notes/8"), "as:to": bob}
+		hidden(body)
+	default:
+		body = J{"type": "as:Create", "as:actor": alice, "as:object": note, "as:to": bob}
+		if g.r.bool() {
+			hidden(body)
+		}
+	}
+	body["@context"] = ctx
+	return J{"label": "aliased", "unordered": true, "cfg": J{"kind": "both"}, "world": w,
+		"steps": []interface{}{step("postOutbox", "POST", g.header(true), "/users/alice/outbox", body)}}
+}
+
+func init() { families["aliased"] = famAliased }
